@@ -153,6 +153,24 @@ def generate(ctx):
                              'T1': profile(K, s == 1 and r % 2 == 0), 'T2': profile(K),
                              'oro': oro, 'ntr': ntr, 'va': 1, 'seed': int(rng.integers(1 << 30)),
                              'lmax': [9, 1, 2][s % 3], 'amp': [1.0, 8.0, 0.125][(r + s) % 3]}
+    # structured reference profiles a random draw never produces: equal end values, plateaus at the
+    # top / bottom, a single step (each against a random profile, same absolute temperature)
+    def structured(K, kind):
+        t = 250.0 + rng.integers(-160, 161, size=K) / 4.0
+        if kind == 'ends': t[-1] = t[0]
+        elif kind == 'top': t[:max(2, K // 2)] = t[0]
+        elif kind == 'bottom': t[-max(2, K // 2):] = t[-1]
+        elif kind == 'step': t[:K // 2] = 230.0; t[K // 2:] = 270.0
+        return t.tolist()
+    for r, (cls, K, kind) in enumerate([('dry', 5, 'ends'), ('moist', 4, 'ends'), ('dry', 4, 'top'), ('time', 4, 'bottom'), ('moist', 4, 'step')]
+                                       if quick else [(c, K, k) for c in ('dry', 'time', 'moist') for K in (3, 5, 7) for k in ('ends', 'top', 'bottom', 'step')]):
+        ctx.count('oracle:structured-profile-' + kind)
+        bb = levels(K, r)
+        yield 'oracle', {'cls': cls, 'grid': 'g5', 'K': K, 'b': bb, 'T1': structured(K, kind), 'T2': profile(K),
+                         'oro': r % 2, 'ntr': 0, 'va': 1, 'seed': int(rng.integers(1 << 30)), 'lmax': 2, 'amp': 1.0}
+        if r < 2 or not quick:
+            yield 'corr', {'cls': cls, 'grid': 'g5', 'K': K, 'b': bb, 'Tref': structured(K, kind), 'oro': 0, 'ntr': 0, 'va': 1,
+                           'seed': int(rng.integers(1 << 30)), 'nodes': 4, 'sparse': r % 2}
     yield 'cloud_nonzero', dict(CLOUD_ARGS)
 
 
